@@ -591,6 +591,11 @@ pub fn c15(tier: Tier) -> i32 {
         eprintln!("  [C15] converter row sequences: {} exports, {} conversions", part.states, part.validated);
         acc = Acc::merge(acc, part);
         ctx.require(acc.get("converter:row-sequences") > 0, "no converter row sequence was run");
+        // (h) long exports: 5..100 rows in four row orders with a comment / cancel row at every position
+        let part = crate::conv::long_exports(&ctx, "C15");
+        eprintln!("  [C15] converter long exports: {} conversions", part.states);
+        acc = Acc::merge(acc, part);
+        ctx.require(acc.get("converter:long-exports") > 1000, "no long export was converted");
     }
     // (e) the MCP entry point: malformed JSON ledgers with a multi-byte character at every offset around the error site
     crate::mcp::malformed_json_sweep(&ctx, &mut acc, "C15");
